@@ -509,6 +509,7 @@ class Model:
             diff = np.zeros(self.shape[2])
             for k, v in props.items():
                 diff += abs(np.diff(np.r_[-1, v]))
+            diff[0] = 1  # The first layer is always kept.
             ind = diff.nonzero()[0]
 
             # Merge.
